@@ -64,13 +64,6 @@ theorem drop_join (x : Bytes) : (sJoinU ++ x).drop 5 = x := by simp [sJoinU]
 
 /-! ## slotOf on what a job writes -/
 
-/-- what must hold of a job record for its slot -/
-def slotValid (nchunks : Nat) (r : JobRec) : Prop :=
-  match r.slot with
-  | .chunk i => i < nchunks ∧ fileOK r.file = true
-  | .split => fileOK (sSplitU ++ r.file) = true
-  | .join => fileOK (sJoinU ++ r.file) = true
-  | .own => fileOK r.file = true ∧ startsWith sSplitU r.file = false ∧ startsWith sJoinU r.file = false
 
 theorem slotOf_jname (nchunks : Nat) (r : JobRec) (h : slotValid nchunks r) :
     slotOf nchunks r.jname.chunk r.jname.file = some (r.slot, r.file) := by
@@ -87,16 +80,6 @@ theorem slotOf_jname (nchunks : Nat) (r : JobRec) (h : slotValid nchunks r) :
     simp only [slotValid] at h
     simp [JobRec.jname, slotOf, h.2.1, h.2.2]
 
-/-- a job record of a tree -/
-structure ValidJob (top : Bytes) (nodes : List NodeM) (nch : Nat → Nat → Nat) (r : JobRec) : Prop where
-  node_ok : ∃ nd, nodes[r.node]? = some nd ∧ nd.fqid = top ++ cDot :: r.path ∧ nd.forks.Nodup ∧
-    nd.forks[r.fork]? = some r.forkName
-  path_ne : r.path ≠ []
-  path_free : ∀ m ∈ nodes, m.fqid ≠ r.path
-  fork_ne : r.forkName ≠ []
-  fork_dotfree : ∀ c ∈ r.forkName, c ≠ cDot
-  uniq_ok : ∀ u, r.uniq = some u → u.length = 10 ∧ u.all isLowerHex = true
-  slot_ok : slotValid (nch r.node r.fork) r
 
 theorem jname_wellFormed {top : Bytes} {nodes : List NodeM} {nch : Nat → Nat → Nat} {r : JobRec}
     (v : ValidJob top nodes nch r) : WellFormed r.jname := by
@@ -158,8 +141,6 @@ theorem routeBatch_jobNames (top : Bytes) (nodes : List NodeM) (nch : Nat → Na
   intro r hr
   exact route_jobName top nodes nch hnd r (hv r hr)
 
-/-- is the record's uniquifier the owner's current one -/
-def JobRec.current (uq : Owner → Bytes) (r : JobRec) : Bool := cacheAccepts (uq r.owner) (r.uniq.getD [])
 
 theorem creditTable_jobNames (top : Bytes) (nodes : List NodeM) (nch : Nat → Nat → Nat) (uq : Owner → Bytes)
     (hnd : (nodes.map (·.fqid)).Nodup) : ∀ (recs : List JobRec), (∀ r ∈ recs, ValidJob top nodes nch r) →
